@@ -162,8 +162,37 @@ def _seqish(t):
     return False
 
 
+NUM_CALLS = {"len", "int", "abs", "min", "max", "sum", "ord", "round"}
+
+
+def _numish(t):
+    if not isinstance(t, tuple) or not t:
+        return False
+    if is_const(t):
+        return t[1] in ("int", "float", "bool")
+    if t[0] in ("lin", "mul", "mod", "tell", "eval", "idx", "bin", "pos0", "END", "delta", "adelta", "SZ", "loopsum", "seekres", "rangeelem"):
+        return True
+    if t[0] == "subres":
+        return t[1] in ("_sizeof", "_actualsize", "sizeof")
+    if t[0] == "call" and t[1][0] == "free" and t[1][1] in NUM_CALLS:
+        return True
+    if t[0] == "call" and t[1][0] == "attr" and t[1][2] in ("tell", "seek", "sizeof", "count", "index", "find", "calcsize", "bit_length"):
+        return True
+    if t[0] in ("attr", "param") and any(w in t[-1].lower() for w in ("offset", "length", "size", "count", "amount", "index", "unit", "width", "moved")):
+        return True
+    if t[0] == "ite":
+        return _numish(t[2]) or _numish(t[3])
+    if t[0] == "lv":
+        return t[3] is not None and _numish(t[3])
+    return False
+
+
 def mk_bin(op, a, b):
     strish = _seqish
+    if op == "+" and not (_seqish(a) or _seqish(b)) and not (_numish(a) or _numish(b)):
+        # operands of unknown type: keep the order (could be a buffer concatenation)
+        if a[0] == "uconcat" or True:
+            return ("uconcat", a, b)
     if op == "%" and strish(a):
         return ("fmt", a, b)
     if op in ("+", "-") and not (strish(a) or strish(b)):
